@@ -56,6 +56,7 @@ def cases(draw, tier="quick"):
         cfg["theory"]["PTO"] = cfg["meta"]["pto"] = 1
     if (cfg["theory"]["RenScaleVar"] or cfg["theory"]["FactScaleVar"]) and cfg["meta"]["pto"] > 2:
         cfg["theory"]["PTO"] = cfg["meta"]["pto"] = 2
+    configs.split_orders(draw, cfg["theory"], cfg["meta"])
     return cfg
 
 
